@@ -94,6 +94,8 @@ fn deporder_embedded(case: &Value) -> Value {
     //   raw / tetris: 0 layouts everywhere, 1 cells without dependencies have only an abstract view (no layout),
     //                 2 every dependency instantiated twice, leaves carry both views
     //   tetris only:  3 cells without dependencies are wrappers of a raw layout (no tetris layout, no abstract)
+    //                 4 as 0, but the same Library object was ordered once BEFORE its instances were added
+    //   raw only:     3 likewise (ordered and exported once before the instances were added)
     let form = case.get("form").and_then(|f| f.as_i64()).unwrap_or(0);
     match which {
         "raw" => {
@@ -118,6 +120,12 @@ fn deporder_embedded(case: &Value) -> Value {
             }
             let mut lib = raw::Library::new("lib", raw::Units::Nano);
             for it in &items { lib.cells.push(cells[*it - 1].clone()); }
+            if form == 3 {
+                let full: Vec<Option<raw::Layout>> = cells.iter().map(|c| c.write().unwrap().layout.take()).collect();
+                for i in 1..=n { let mut l = raw::Layout::default(); l.name = name(i); cells[i - 1].write().unwrap().layout = Some(l); }
+                let _ = raw::DepOrder::order(&lib); let _ = lib.to_proto();
+                for (c, l) in cells.iter().zip(full.into_iter()) { c.write().unwrap().layout = l; }
+            }
             match raw::DepOrder::order(&lib) {
                 Ok(order) => {
                     let names: Vec<i64> = order.iter().map(|p| unname(&p.read().unwrap().name)).collect();
@@ -148,6 +156,12 @@ fn deporder_embedded(case: &Value) -> Value {
             }
             let mut lib = raw::Library::new("lib", raw::Units::Nano);
             for it in &items { lib.cells.push(cells[*it - 1].clone()); }
+            if form == 3 {
+                let full: Vec<Option<raw::Layout>> = cells.iter().map(|c| c.write().unwrap().layout.take()).collect();
+                for i in 1..=n { let mut l = raw::Layout::default(); l.name = name(i); cells[i - 1].write().unwrap().layout = Some(l); }
+                let _ = raw::DepOrder::order(&lib); let _ = lib.to_proto();
+                for (c, l) in cells.iter().zip(full.into_iter()) { c.write().unwrap().layout = l; }
+            }
             match lib.to_proto() {
                 Ok(p) => {
                     let names: Vec<i64> = p.cells.iter().map(|c| unname(&c.name)).collect();
@@ -211,6 +225,15 @@ fn deporder_embedded(case: &Value) -> Value {
             }
             let mut lib = t::library::Library::new("lib");
             for it in &items { lib.cells.push(cells[*it - 1].clone()); }
+            if form == 4 {
+                // the library HAS A HISTORY: it was ordered (and exported) once while no cell instantiated any other, and the
+                // instances were added afterwards; the second answer is about the library as it is at the second call
+                let full: Vec<Option<t::layout::Layout>> = cells.iter().map(|c| c.write().unwrap().layout.take()).collect();
+                for i in 1..=n { cells[i - 1].write().unwrap().layout = Some(t::layout::Layout::new(name(i), 0, t::outline::Outline::rect(10, 10).unwrap())); }
+                let _ = lib.dep_order();
+                let _ = t::conv::proto::ProtoExporter::export(&lib);
+                for (c, l) in cells.iter().zip(full.into_iter()) { c.write().unwrap().layout = l; }
+            }
             if which == "tetris" {
                 match lib.dep_order() {
                     Ok(order) => {
